@@ -22,7 +22,7 @@ def mc_configs(tier):
     return cfgs
 
 
-def model_check(d, c, i):
+def model_check(d, c, i, faults=0):
     core.copy_specs(d, {"DiskImage", "MC_DiskImage"})
     root = f"DIrun{i}"
     with open(os.path.join(d, root + ".tla"), "w") as f:
@@ -33,7 +33,8 @@ def model_check(d, c, i):
                            f"  BP = {c['bp']}", f"  IndexCap = {c['icap']}", "  Keys = {1, 2}", "  Hash <- c_Hash",
                            f"  EntrySizes = {core.tla_value(set(c['sizes']))}", f"  MaxBatch = {c['maxbatch']}",
                            f"  MaxEntries = {c['maxentries']}", f"  MaxCrashes = {c['maxcrashes']}",
-                           "INVARIANT Inv", "CHECK_DEADLOCK FALSE"]) + "\n")
+                           f"  MaxFaults = {faults}", "INVARIANT " + ("FaultInv" if faults else "Inv"),
+                           "CHECK_DEADLOCK FALSE"]) + "\n")
     r = core.run_tlc(d, root, name, workers=6, timeout=2400)
     core.tlc_must_pass(r, f"MC_DiskImage[{c}]")
     return r
@@ -83,14 +84,31 @@ def layout_workloads(rng, num, big):
     return ws
 
 
-def run_profile(pid, d, name, blocks, bp, pad, tomblog, ws, invariant):
+def fault_workloads(rng, num, all_faults):
+    """a small image with overwrites, deletes and a multi-batch blob; a snapshot in the middle provides the
+    older generation of every page; then every fault class on every used page"""
+    ws = []
+    for i in range(num):
+        ops = []
+        for _ in range(rng.randint(2, 4)):
+            ops.append({"a": "ins", "k": rng.choice(KEYS)})
+        ops += [{"a": "wait"}, {"a": "snapshot"}]
+        for _ in range(rng.randint(2, 5)):
+            k = rng.choice(KEYS)
+            ops.append({"a": "rem", "k": k} if rng.random() < 0.25 else {"a": "ins", "k": k})
+        ops += [{"a": "wait"}, {"a": "q"}, {"a": "faults", "all": all_faults, "seed": rng.randint(1, 10**6)}]
+        ws.append({"ops": ops})
+    return ws
+
+
+def run_profile(pid, d, name, blocks, bp, pad, tomblog, ws, invariant, compression=""):
     os.makedirs(d, exist_ok=True)
     p = dict(algo="fifo", shards=1, hash=HASH, cfg=dict(mem.DEFAULT_CFG))
     cfg = mem.harness_cfg(d, p)
     hpath = os.path.join(d, "hcfg.json")
     with open(hpath, "w") as f:
         json.dump({"policy": "woi", "flush_on_close": True, "tomblog": tomblog, "memcap": 2,
-                   "keyloc": {}, "blocks": blocks, "block_pages": bp, "pad": pad}, f)
+                   "keyloc": {}, "blocks": blocks, "block_pages": bp, "pad": pad, "compression": compression}, f)
     wpath = os.path.join(d, "workloads.txt")
     with open(wpath, "w") as f:
         for w in ws:
@@ -160,14 +178,21 @@ def check(pid, tier):
 
     def mc(ic):
         i, c = ic
-        r = model_check(base, c, i)
-        return {"profile": f"MC bp={c['bp']} icap={c['icap']} entries<={c['maxentries']} crashes<={c['maxcrashes']}",
+        r = model_check(base, c, i, faults=(2 if th else 1) if pid == "C03" else 0)
+        return {"profile": f"MC bp={c['bp']} icap={c['icap']} entries<={c['maxentries']} crashes<={c['maxcrashes']}"
+                           + (" faults" if pid == "C03" else ""),
                 "kind": "edge", "algo": "-", "states": r["distinct"], "transitions": r["generated"], "scripts": 0,
                 "matched": 0, "mismatched": 0, "roots": 0, "panics": 0, "nontrivial": 0, "by_field": {}}
 
     rng = random.Random(core.seed() * 7 + (4 if pid == "C04" else 7))
     jobs = []
-    if pid == "C04":
+    if pid == "C03":
+        n = 6 if th else 1
+        jobs.append(("faults-tomb1-none", 4, 8, 0, True, fault_workloads(rng, n, th), "NoViolation_C03", ""))
+        jobs.append(("faults-tomb0-2page", 4, 8, 5000, False, fault_workloads(rng, n, th), "NoViolation_C03", ""))
+        jobs.append(("faults-tomb1-zstd", 4, 8, 300, True, fault_workloads(rng, n, th), "NoViolation_C03", "zstd"))
+        jobs.append(("faults-tomb0-lz4", 4, 8, 300, False, fault_workloads(rng, n, th), "NoViolation_C03", "lz4"))
+    elif pid == "C04":
         n = 40 if th else 8
         for tomblog in (True, False):
             for pad in (0, 5000):
@@ -180,7 +205,10 @@ def check(pid, tier):
         jobs.append(("layout-16p-pad9000", 16, 16, 9000, False, layout_workloads(rng, n, False), "NoViolation_C07"))
         jobs.append(("layout-256p-indexcap", 6, 256, 0, False, layout_workloads(rng, max(4, n // 3), True), "NoViolation_C07"))
     with cf.ThreadPoolExecutor(max_workers=4) as ex:
-        mcf = [ex.submit(mc, ic) for ic in enumerate(mc_configs(tier))]
+        mcs = mc_configs(tier)
+        if pid == "C03":
+            mcs = [dict(c, maxentries=min(c["maxentries"], 4), maxcrashes=0) for c in mcs[:2]]
+        mcf = [ex.submit(mc, ic) for ic in enumerate(mcs)]
         futs = [ex.submit(run_profile, pid, os.path.join(base, j[0]), *j) for j in jobs]
         for f in mcf:
             results.append(f.result())
